@@ -140,6 +140,29 @@ def dupids(tier):
                     yield {"kind": "dupid", "L": L, "alap": alap, "ef": ef, "deep": deep}
 
 
+def mixhold(tier):
+    """mixed directions with whole-slot efforts: a backward task (alap + end, placed first) holds whole slots of r1; a forward task of r1
+    has its dependency bound INSIDE one of those slots (a gap of half a slot / a milestone typed at half past) and must go past them"""
+    for L in (60, 30):
+        for via in ("gap", "milestone"):
+            for hold in (1, 2):
+                for proj_alap in (False, True):
+                    yield {"kind": "mixhold", "L": L, "via": via, "hold": hold, "palap": proj_alap}
+
+
+def mixhold_spec(it):
+    L = it["L"]
+    half = f"{L // 2}min"
+    b = {"id": "b", "effort": it["hold"] * L, "alloc": ["r1"], "prio": 900, "sched": "alap", "end": "2025-01-06-12:00"}
+    if it["via"] == "gap":
+        pre = {"id": "p", "effort": L, "alloc": ["r2"], "sched": "asap", "start": "2025-01-06-10:00"}
+        f = {"id": "f", "effort": 2 * L, "alloc": ["r1"], "sched": "asap", "deps": [{"ref": "p", "gap": half}]}
+    else:
+        pre = {"id": "p", "milestone": True, "sched": "asap", "start": "2025-01-06-11:30" if L == 60 else "2025-01-06-11:45"}
+        f = {"id": "f", "effort": 2 * L, "alloc": ["r1"], "sched": "asap", "deps": ["p"]}
+    return {"res_min": L if L != 60 else None, "dur": "1w", "alap": it["palap"], "resources": [{"id": "r1"}, {"id": "r2"}], "tasks": [b, pre, f]}
+
+
 def dupid_spec(it):
     e = it["ef"]
     leaf = lambda i, m: {"id": i, "effort": m, "alloc": ["r1"]}  # noqa: E731
@@ -160,6 +183,8 @@ def to_spec(item):
         return slot0_spec(item)
     if item["kind"] == "dupid":
         return dupid_spec(item)
+    if item["kind"] == "mixhold":
+        return mixhold_spec(item)
     if item["kind"] == "tb":
         from mc.props import c03
         return c03.tb_spec(item)
@@ -212,6 +237,7 @@ def run(ctx):
     explore(ctx, c03.team_blockers(ctx.tier), "mc.props.c01:evaluate", st, payload=payload, sample_of=sample)
     explore(ctx, slot0(ctx.tier), "mc.props.c01:evaluate", st, payload=payload, sample_of=sample)
     explore(ctx, dupids(ctx.tier), "mc.props.c01:evaluate", st, payload=payload, sample_of=sample)
+    explore(ctx, mixhold(ctx.tier), "mc.props.c01:evaluate", st, payload=payload, sample_of=sample)
     for mode in ("rebuilt", "blocked"):
         explore(ctx, [it for it in fracres(ctx.tier) if it["mode"] == mode], "mc.props.c01:evaluate", st, mode=mode, payload=payload, sample_of=sample)
     from mc.props import wide
